@@ -811,6 +811,11 @@ class C01(Property):
             ops.append({"call": leaf(0, [1, 3][j % 2], 10, gap=MS, m=0, via=(j // 2) % 2)})
         for j in range(8):
             ops.append({"call": leaf(1, [1, 3, 0, 2][j % 4], [11, 12][j // 4], gap=MS, m=0, via=j % 2)})
+        # after NoBreakerFor the predicate is not asked at all (one that would panic does not)
+        ops.append({"nop": [1, 1]})
+        for j in range(6):
+            ops.append({"call": leaf(1, [1, 3][j % 2], [10, 11, 12][j % 3], gap=MS, m=0, via=(j // 3) % 2)})
+        ops.append({"call": {"c": [0, 0, 3, 0, 0, MS, 0, big, 0], "in": {"c": [1, 1, 3, 0, 12, 1000, 0, 0, 1]}}})
         ops += [{"call": leaf(i, 0, 0, gap=0, c=2)} for i in range(2)]
         cs.append({"base": B + 3, "insts": [1, 1], "mops": ops})
         return cs
